@@ -7,9 +7,22 @@ import vlib, evalgen, c01
 n = int(sys.argv[1]) if len(sys.argv) > 1 else 1500
 seed = int(sys.argv[2]) if len(sys.argv) > 2 else 1
 depths = [int(x) for x in sys.argv[3].split(",")] if len(sys.argv) > 3 else [1, 2, 2, 3]
+vlib.build_impl()
 chk = vlib.Check("DEV", "quick", seed)
 g = evalgen.Gen(chk.rng)
-cases = [(g.expr(chk.rng.choice(depths)), evalgen.gen_doc(chk.rng)) for _ in range(n)]
+cases = []
+for _ in range(n):
+    d = evalgen.gen_doc(chk.rng)
+    g.set_doc(d)
+    if os.environ.get("MUT"):
+        e = g.update()
+        if chk.rng.random() < 0.3:
+            e = ("pipe", e, g.update())
+    else:
+        e = g.expr(chk.rng.choice(depths))
+    cases.append((e, d))
+if os.environ.get("WRAP"):
+    cases = [(("union", ("collect", e), ("self",)), d) for e, d in cases]
 impl, mism, err = c01.run_cases(chk, cases, "dev_cases")
 if err:
     print(err); sys.exit(1)
